@@ -232,6 +232,10 @@ def check_C01(ctx):
                 cases.append(["parse " + hx(b"enr:" + gens.b64(b))]); labs.append(lab + "/text")
             else:
                 cases.append(["decode " + hx(b)]); labs.append(lab)
+        for r in recs[:ctx.scale(6, 40)]:
+            tw = gens.content_twin(ctx.rng, ctx.oracle, r)
+            cases.append(["decode " + hx(r["bytes"]), "decode " + hx(tw), "decode " + hx(r["bytes"]), "parse " + hx(b"enr:" + gens.b64(tw))])
+            labs.append("genuine_then_content_twin")
         compare_cases(ctx, kt, cases, labs, lambda c, h: fields, "c01", mon, nontrivial=lambda case, il: True)
 
 
@@ -273,9 +277,15 @@ def check_C13(ctx):
         # streams and lists of 1..8 records
         for _ in range(ctx.scale(12, 150)):
             k = rng.randrange(1, 9)
-            rs = [rng.choice(recs)["bytes"] for _ in range(k)]
+            picks = [rng.choice(recs) for _ in range(k)]
+            rs = [r["bytes"] for r in picks]
             if rng.random() < 0.2:
                 rs[rng.randrange(k)] = rng.choice(inputs)
+            if rng.random() < 0.35:
+                # the genuine record immediately followed by a copy with altered content and the same signature
+                j = rng.randrange(k)
+                rs = rs[:j] + [picks[j]["bytes"], gens.content_twin(rng, ctx.oracle, picks[j])] + rs[j + 1:]
+                k = len(rs)
             cat = b"".join(rs)
             case = ["decvec " + hx(rlp_list(cat)), "decvec " + hx(rlp_list(cat) + gens.rbytes(rng, rng.randrange(0, 20)))]
             pos = 0
@@ -540,14 +550,18 @@ def size_sweep_cases(ctx, kt):
                 lines.append("op set_seq a 0 %d" % rng.choice([0, 127, 128, 255, 256, 65535, 65536, 2**32, 2**64 - 1]))
             elif c < 0.75:
                 lines.append("op remove_insert a 0 %s %s:%s" % (rng.choice(["none", hx(b"zfill"), hx(b"ip")]), hx(rng.choice([b"q", b"zz"])), hx(b"w" * rng.randrange(0, 20))))
-            elif c < 0.85:
+            elif c < 0.80:
                 lines.append("op set_ip a 0 %s" % gens.rbytes(rng, rng.choice([4, 16])).hex())
-            elif c < 0.9:
+            elif c < 0.84:
                 lines.append("op remove_key a 0 %s" % hx(rng.choice([b"ip", b"udp", b"nokey"])))
-            elif c < 0.95:
+            elif c < 0.87:
                 lines.append("op set_client_info a 0 %s %s none" % (hx(b"c" * rng.randrange(0, 12)), hx(b"v1")))
             else:
-                lines.append("op insert b 0 %s b:%s" % (hx(b"a"), hx(b"y" * rng.randrange(0, 10))))
+                lines.append(rng.choice(["op insert b 0 %s b:%s" % (hx(b"a"), hx(b"y" * rng.randrange(0, 10))),
+                                         "op remove_key b 0 %s" % hx(rng.choice([b"nokey", b"udp", b"zfill"])),
+                                         "op remove_udp4 b 0", "op remove_tcp b 0",
+                                         "op set_udp_socket b 0 %s 30303" % gens.raddr(rng).hex(),
+                                         "op set_seq b 0 %d" % rng.choice([128, 256, 65536, 2**32])]))
         cases.append(lines)
     # the builder near the limit: every result size 286..310 in 1-byte steps, for several sequence-number widths
     for seq in (rng.sample(seqs, 3) if ctx.quick else seqs):
@@ -609,7 +623,7 @@ def check_history_property(ctx):
         cases = hist_cases(ctx, kt, ctx.scale(24, 400), (4, 25))
         if pid in ("C07",):
             cases += hist_cases(ctx, kt, ctx.scale(12, 200), 6, start_fn=lambda rng: "build a 0 %d" % rng.choice(gens.SEQ_POOL))
-        if pid in ("C09", "C05", "C06"):
+        if pid in ("C09", "C05", "C06", "C10"):
             cases += size_sweep_cases(ctx, kt)
         if pid == "C14":
             ports = sorted(set(gens.PORT_POOL + [ctx.rng.randrange(65536) for _ in range(ctx.scale(120, 0))])) if ctx.quick else list(range(65536))
